@@ -74,6 +74,8 @@ def frame_ok(line, messages):
     """line is empty or exactly one frame of a message that was current at some time."""
     if line == "":
         return True
+    if "" in messages and line.strip() in VALUES:
+        return True  # a frame with an empty message
     m = FRAME.match(line)
     if not m or m.group(1) not in VALUES:
         return False
@@ -105,7 +107,8 @@ class Lab(object):
 
 def run_schedule(lab, sched, program, prefix, rng=None, max_steps=600, variant="ansi"):
     """Executes the program under one schedule. Returns a result dict.
-    variant: 'ansi' (decorated output), 'indented' (decorated, inside an indentation scope), 'plain' (undecorated)."""
+    variant: 'ansi' (decorated output), 'indented' (decorated, inside an indentation scope), 'plain' (undecorated),
+    'empty-end' (decorated, the end message is the empty string)."""
     taken = []
 
     def choose(r, s, default_idx):
@@ -127,11 +130,12 @@ def run_schedule(lab, sched, program, prefix, rng=None, max_steps=600, variant="
     import time
 
     err = None
-    messages = {"start-msg", "end-msg"}
+    end_message = "" if variant == "empty-end" else "end-msg"
+    messages = {"start-msg", end_message}
     exited = False
     try:
         try:
-            with pi.auto("start-msg", "end-msg"):
+            with pi.auto("start-msg", end_message):
                 for kind, arg in program:
                     if kind == "msg":
                         messages.add(MSGS[arg])
@@ -217,7 +221,8 @@ def judge(sh, res, program, record):
     # (2) normal exit: end message is the last frame
     if not raising:
         scr = t.screen()
-        if not scr or scr[-1].strip() != "- end-msg" or not "".join(x for _, x in res["events"]).endswith("\n"):
+        want_last = "-" if res["variant"] == "empty-end" else "- end-msg"
+        if not scr or scr[-1].strip() != want_last or not "".join(x for _, x in res["events"]).endswith("\n"):
             sh.violate("end-frame", record, "after a normal exit the screen ends with %r" % (scr[-1:] if scr else None,))
 
 
@@ -380,6 +385,7 @@ def run_manual(sh, maxlen):
 
     OPS = ["start", "advance", "advance", "msg", "finish"]
     STEPS_MS = [0, 50, 99, 100, 250]
+    EMPTY = {"finish": "", "msg": "", "start": ""}
     # (format given explicitly or chosen by the component, verbosity of the output, decorated, indicator values, interval ms)
     BRAILLE = ["⠋", "⠙", "⠹", "⠸", "⠼", "⠴", "⠦", "⠧"]
     VARIANTS = [("explicit", 0, True, None, 100)]
@@ -396,6 +402,7 @@ def run_manual(sh, maxlen):
             seqno += 1
             how, verbosity, decorated, values, interval = VARIANTS[seqno % len(VARIANTS)] if seqno % 3 else VARIANTS[0]
             styled = seqno % 5 == 0  # messages wrapped in a style tag, as applications usually pass them
+            empties = seqno % 7 == 3  # the messages of this sequence are empty strings
             st = Rec()
             out = Output(st, AnsiFormatter(forced=True) if decorated else PlainFormatter())
             out.set_verbosity(verbosity)
@@ -426,16 +433,19 @@ def run_manual(sh, maxlen):
                 n0 = len(st.ev)
                 try:
                     if op == "start":
-                        pi.start(wrap("start-msg"))
-                        cur = "start-msg"
+                        new = "" if empties else "start-msg"
+                        pi.start(wrap(new) if new else "")
+                        cur = new
                     elif op == "advance":
                         pi.advance()
                     elif op == "msg":
-                        cur = "msg-%d" % len(msgs)
-                        pi.set_message(wrap(cur))
+                        new = "" if empties else "msg-%d" % len(msgs)
+                        pi.set_message(wrap(new) if new else "")
+                        cur = new
                     else:
-                        pi.finish(wrap("end-msg"))
-                        cur = "end-msg"
+                        new = "" if (empties or seqno % 2) and not styled else "end-msg"
+                        pi.finish(wrap(new) if new else "")
+                        cur = new
                 except TypeError:
                     # set_message() before the first start() with a format that shows the elapsed time fails on the missing
                     # start time: a call outside the property (nothing has been started), counted, not judged
@@ -475,17 +485,19 @@ def run_manual(sh, maxlen):
                     t = Term(200)
                     t.feed("".join(x for _, x in st.ev))
                     line = t.current_line() if not text.endswith("\n") else (t.screen()[-1] if t.screen() else "")
+                    if not decorated:
+                        line = text.split("\n")[0]  # undecorated frames are whole lines (possibly blank ones)
                     # one frame: [indicator value] current message [(elapsed time) in the verbose formats the component chooses]
                     body = line.strip()
                     ok = True
                     if shows_indicator:
-                        v = next((v for v in allowed if body.startswith(v + " ")), None)
+                        v = next((v for v in allowed if body.startswith(v + " ") or body == v), None)
                         ok = v is not None
                         body = body[len(v) + 1:] if ok else body
                     if ok:
                         if body == cur:
                             pass
-                        elif how == "chosen" and verbosity >= 1 and body.startswith(cur + " (") and body.endswith(")"):
+                        elif how == "chosen" and verbosity >= 1 and (body.startswith(cur + " (") or (cur == "" and body.startswith("("))) and body.endswith(")"):
                             sh.count("manual_frames_with_elapsed")
                         else:
                             ok = False
@@ -526,7 +538,7 @@ def run(sh, spec):
             sh.count("programs")
             run_random(sh, lab, sched, progs[pid], spec["random"], pid)
             # the same program on an undecorated output and inside an indentation scope (smaller bound)
-            for variant in ("plain", "indented"):
+            for variant in ("plain", "indented", "empty-end"):
                 explore(sh, lab, sched, progs[pid], min(spec["bound"], 2), min(spec["cap"], 400), pid, variant)
                 sh.count("variant_programs")
         sh.count("programs_fully_enumerated_within_bound", complete)
